@@ -806,7 +806,7 @@ fn write_replay(
     let dir = format!("{}/replays", verif_dir());
     let _ = std::fs::create_dir_all(&dir);
     let h = fnv(key.as_bytes()) & 0xffff_ffff;
-    let path = format!("{dir}/{}-{}-{}-{:08x}.json", sc.property, sc.name, base, h);
+    let path = format!("{dir}/{}-{}-{}-{}-{:08x}.json", sc.property, sc.name, config, base, h);
     let mut j = Json::obj()
         .set("property", Json::str(sc.property))
         .set("scenario", Json::str(full.clone()))
